@@ -2,6 +2,8 @@
 import json
 
 CHECKS = {
+ 'C01': ('exploration', 'seeded search over provider transaction histories x schedules in a full provider+consumer simulation with fault-free delivery; refinement of the consumer MDIB against the provider version history at every quiescent point; notification sets compared with transaction results',
+         'sampled histories/schedules; aiohttp session, sockets and WS-Discovery are stubs; tutorial role providers not installed', '6 (C01)'),
  'C02': ('exploration', 'seeded search over transaction histories x writer interleavings (deterministic simulation, world A); invariants inside the commit critical section and over the recorded version history',
          'sampled histories and schedules: evidence, not proof; CPython GIL semantics; canonical snapshots walk the library\'s _props metadata', '6 (C02)'),
  'C03': ('fault_enumeration', 'per sampled transaction history every crash point of every transaction body is injected (exception after each API step), plus raising pre_commit_handler, API-rejected calls and nested-path write-through probes on every handed-out object; MDIB snapshot + lookup audit must equal the pre-state',
